@@ -382,9 +382,11 @@ def parse_obs(c, o, flat):
         if tag == 9:
             bad.append((i, flat[p])); p += 1
             continue
+        assert tag == 1, "unknown lock record tag %d" % tag
         owner, denom, amt, dur, end, rr, rre = flat[p:p + 7]; p += 7
         locks[i] = {"id": i, "owner": owner, "denom": denom, "amt": amt, "dur": dur, "end": end, "rr": rr, "rre": rre}
     acc = []
+    junk = (p, p + len(c["adurs"]))     # the store of the empty denomination (AddTokensToLockByID's "synthetic denom" without synthetic lock)
     for n in range(nd + 1):
         acc.append(flat[p:p + len(c["adurs"])]); p += len(c["adurs"])
     queries = []
@@ -401,7 +403,7 @@ def parse_obs(c, o, flat):
                     res = flat[p:p + 1]; p += 1
                 queries.append((name, kind, args, res))
     assert p == len(flat), "observation vector has %d numbers, parsed %d" % (len(flat), p)
-    return {"now": now, "last": last, "mod": mod, "nmod": nmod, "bal": bal, "locks": locks, "bad": bad, "acc": acc, "queries": queries}
+    return {"now": now, "last": last, "mod": mod, "nmod": nmod, "bal": bal, "locks": locks, "bad": bad, "acc": acc, "queries": queries, "junk": junk}
 
 
 def check_state(c, ob):
@@ -704,3 +706,79 @@ ASSUMPTIONS = [
 TECHNIQUE = "Coq proof by induction over operation histories on a Gallina model of the lockup keeper and msg server; model tied to x/lockup by differential correspondence (vm_compute) + oracle"
 LEVEL_TEXT = ""
 LEVEL_NOTE = ""
+
+
+def selftest(seed=1, n=6):
+    """development aid (python3 -c 'from props import c06; c06.selftest()'): the oracle must flag hand-perturbed observations and
+    case_ok must reject perturbed expectations / perturbed model inputs"""
+    import copy
+    r = Rng(seed)
+    cases = [gen_case(r.fork(i), "quick") for i in range(n)]
+    binary = common.go_build("c06drv", test=True)
+    obs = common.run_driver(binary, cases, args="-test.run ^TestDriver$", shards=1)
+    ok = True
+    for c, o in zip(cases, obs):
+        v, _ = oracle_case(c, o)
+        assert not v, v
+    # 1. oracle: perturb single numbers of the observation vectors
+    nd = len(DENOMS)
+    kinds = {}
+    rr = Rng(seed + 1)
+    for trial in range(200):
+        ci = rr.below(n)
+        c, o = cases[ci], copy.deepcopy(obs[ci])
+        k = rr.below(len(o["flat"]))
+        f = o["flat"][k]
+        j = rr.range(1, len(f) - 1)          # not the block time
+        jr = parse_obs(c, c["ops"][k], f)["junk"]
+        if jr[0] <= j < jr[1]:
+            continue                         # the accumulation store of the empty denomination is not covered by the property
+        f[j] += rr.choice([1, -1]) if f[j] > 0 else 1
+        try:
+            v, _ = oracle_case(c, o)
+        except AssertionError:
+            v = [{"rec": {"kind": "malformed"}}]
+        except Exception as ex:   # a perturbed count can make the parse run off the end
+            v = [{"rec": {"kind": "malformed:" + type(ex).__name__}}]
+        if not v:
+            ob = parse_obs(c, c["ops"][k], obs[ci]["flat"][k])
+            # the stored reward-receiver field may name the owner explicitly instead of "" - not covered by the property
+            pos = 3 + nd * (c["nacc"] + 1)
+            rrpos = set()
+            for i in range(1, ob["last"] + 2):
+                if i in ob["locks"]:
+                    rrpos.add(pos + 6)
+                    pos += 8
+                else:
+                    pos += 1
+            if j in rrpos:
+                continue
+            print("NOT FLAGGED: case %d op %d position %d of %d" % (ci, k, j, len(f)))
+            ok = False
+        else:
+            kk = v[0]["rec"]["kind"]
+            kinds[kk] = kinds.get(kk, 0) + 1
+    print("oracle self-test: perturbations flagged as", kinds)
+    # 2. case_ok: perturbed expectation / perturbed model input
+    body = []
+    for i, (c, o) in enumerate(zip(cases, obs)):
+        keep = coq_keep(c, "quick")
+        c2 = dict(c, ops=[dict(op, q=(op.get("q") if k else None)) for op, k in zip(c["ops"], keep)])
+        hs = [h if k else h0 for h, h0, k in zip(o["hs"], o["hs0"], keep)]
+        codes = list(o["codes"])
+        if i == 1:
+            hs[len(hs) // 2] ^= 1
+        if i == 2:
+            codes[3] = 0 if codes[3] else 2
+        if i == 3:
+            for op in c2["ops"]:
+                if op["k"] == "lock" and op["amt"] > 0:
+                    op["amt"] += 1
+                    break
+        body.append(coq_case(c2, [x for p in zip(codes, hs) for x in p]))
+    v = ("From Coq Require Import ZArith List. Import ListNotations.\nFrom Osmo Require Import Base.Obs C06.Model C06.Corr.\nOpen Scope Z_scope.\n"
+         "Definition cases : list case := [\n  %s ].\nDefinition M := Eval vm_compute in mismatches case_ok cases.\nPrint M.\n" % ";\n  ".join(body))
+    rc, out = common.coq_eval("C06_selftest", v)
+    mm = common.parse_nat_list(out)
+    print("case_ok self-test: mismatching cases", mm, "(expected [1, 2, 3])")
+    return ok and mm == [1, 2, 3]
